@@ -280,3 +280,41 @@ Proof.
     unfold fge in *. destruct (fkey v); [|congruence]. destruct (fkey (nth j (spec ++ [MAXF]) 0)); [|congruence].
     apply Z.leb_gt in Q. apply Z.leb_le. lia.
 Qed.
+
+(* ---------------- several handles, one series ---------------- *)
+(* Allocating a (name, tags) that is already cached and whose child exists
+   (a re-acquired sub-scope, a second root scope, a second Allocate* call)
+   hands out a handle on the SAME series and leaves its value as it is ... *)
+Theorem realloc_same_series c s u n tags v x :
+  alloc_vec c s u n (map fst tags) = (s, VOk (Some v)) ->
+  afind key_eqb (v, map snd tags) (sers s) = Some x ->
+  let r := rstep c s (RAlloc u n tags) in
+  snd r = OMetric (MReal (v, map snd tags)) /\
+  nth_error (handles (fst r)) (length (handles s)) = Some (MReal (v, map snd tags)) /\
+  sers (fst r) = sers s /\ vecs (fst r) = vecs s /\ cblog (fst r) = cblog s.
+Proof.
+  intros A X. cbn [rstep]. rewrite A. unfold finish. cbn [fst snd].
+  unfold with_series. rewrite X. unfold push_handle. cbn.
+  repeat split; auto. rewrite nth_error_app2 by lia. now rewrite Nat.sub_diag.
+Qed.
+
+(* ... and reports through ANY handles of a series act on that one value, in
+   the order they are made: the counter adds up over all handles, the gauge
+   shows the latest report whichever handle made it (no per-handle memory),
+   observations land in the same summary / histogram *)
+Theorem handles_share_series s h1 h2 k x d1 d2 :
+  nth_error (handles s) h1 = Some (MReal k) -> nth_error (handles s) h2 = Some (MReal k) ->
+  afind key_eqb k (sers s) = Some x ->
+  let bs := vbounds (nth (fst k) (vecs s) dvec) in
+  afind key_eqb k (sers (deliver_h (deliver_h s h1 d1) h2 d2)) = Some (apply bs (apply bs x d1) d2).
+Proof.
+  intros H1 H2 X bs.
+  assert (E1 : deliver_h s h1 d1 = deliver s k d1) by (unfold deliver_h; now rewrite H1).
+  destruct (deliver_real s k d1 x X) as (B1 & _ & _ & _ & B5 & _ & _ & B8 & _).
+  rewrite E1.
+  assert (E2 : deliver_h (deliver s k d1) h2 d2 = deliver (deliver s k d1) k d2)
+    by (unfold deliver_h; now rewrite B5, H2).
+  rewrite E2.
+  destruct (deliver_real (deliver s k d1) k d2 _ B8) as (_ & _ & _ & _ & _ & _ & _ & C8 & _).
+  rewrite C8, B1. reflexivity.
+Qed.
